@@ -4,6 +4,8 @@ open Proto Stat
 
 /-  requests (floats as IEEE bit patterns, names comma separated, `-` = empty list):
       ts   <ns> <ll>                              -> TS of WilksTestStatistic
+      tsc  <names> <name> <fitparams> <ll>        -> the Wilks call incl. the parameter lookup | K | I
+      tstc <names> <name> <fitparams> <ll> <grads> <b> -> the Taylor call incl. the lookup
       tst  <ns> <ll> <a> <b>                      -> TS of the zero-ns Taylor variant | notfinite
       ll   <N> <nSel> <ns> <Xs>                   -> logΛ (stable regime)
       lh   <N> <nSel> <Xs> <ops>                  -> history on one LLH-ratio object (e<ns>, n, g<ns>, t), stable formulas
@@ -99,6 +101,16 @@ def profHist (opa ns0 : Float) (ds : List (DsIn Float)) (fs : List Float) (ops :
 def answer (line : String) : String :=
   match tokens line with
   | ["ts", ns, ll] => fF (ts (pF ns) (pF ll))
+  | ["tsc", names, name, fp, ll] => match tsCall (pNames names) name (pList pF fp) (pF ll) with
+      | .ok x => fF x
+      | .error .keyError => "K"
+      | .error .indexError => "I"
+  | ["tstc", names, name, fp, ll, grads, b] =>
+      match tsTaylorCall (pNames names) name (pList pF fp) (pF ll) (pList pF grads) (pF b) with
+      | .ok (some x) => fF x
+      | .ok none => "notfinite"
+      | .error .keyError => "K"
+      | .error .indexError => "I"
   | ["tst", ns, ll, a, b] => match tsTaylor (pF ns) (pF ll) (pF a) (pF b) with
       | some x => fF x
       | none => "notfinite"
